@@ -1329,6 +1329,9 @@ if LEVEL == "exploration":
 LEVEL_TEXT = LEVEL_TEXT + (" Additionally proved (E2, taint analysis of the real AST): every public function and method in this property's anchor files writes through "
                            "no reference reachable from its arguments (or from self), so results do not depend on call order and callers' arrays / lists are not modified; "
                            "a run-time frame clause replays the same claim on concrete arguments.")
+LEVEL_TEXT = LEVEL_TEXT + (" Proved (E1-term, over uninterpreted linear algebra, callees by parameter name): pretty_good_measurement(states, probs)[i] = P^(-1/2) (p_i rho_i) P^(-1/2) "
+                           "with P = sum p_i rho_i, pretty_bad_measurement[i] = (I - G_i)/(n - 1) with G the pretty good measurement (three states), and the single-operator form of "
+                           "measure returns (Tr(K rho K^dagger), K rho K^dagger / p if p > tol else 0).")
 EXPLANATION = LEVEL_TEXT
 if "E2-frame" not in globals().get("ENGINES", []):
     ENGINES = list(globals().get("ENGINES", ["E3-E4-rtc"])) + ["E2-frame"]
